@@ -19,3 +19,5 @@ def run(ctx):
     a = ['--thorough'] if ctx.thorough else []
     for k in ('c04_mask16', 'c04_reg16', 'c04_mask32'):
         ctx.run(bins[k], a)
+    if ctx.thorough:
+        ctx.run(bins['c04_mask32'], a + ['--what', 'sweep32'])
